@@ -34,6 +34,7 @@ ASSUMPTIONS = [
     'random.sample inside sample_parameters is seeded by the harness from the case',
     'stored spectrum compared with an independent model at the MAP on the full native grid and the C05 reference binning, rtol 1e-9',
 ]
+RULE = RULE + ' ' + 'Also: a user-defined clipped derived parameter (python int 0 below a floor, float above) among the derived parameters; cases stratified by sampler.'
 REQUIRED = {'zero-coordinate-at-map': 0.05, 'refit-on-same-optimizer': 0.15, 'sampler:nestle': 0.15, 'sampler:multinest': 0.15, 'weights:nonuniform': 0.3, 'has-derived': 0.2}
 
 DERIVED = ['mu', 'logg', 'avg_T', 'T_excess']
